@@ -13,7 +13,6 @@ frame_length is outside the lattice: the property claims nothing there.
 torch is imported lazily inside the point functions (the pool forks first) and every
 worker runs torch.set_num_threads(1).
 """
-import copy
 import itertools
 
 import numpy as np
@@ -110,9 +109,9 @@ def _call_nograd(fn, *a):
 # ------------------------------------------------------------------ STFT lattice
 
 
-def _stft_tags(bank, c, prec):
+def _stft_tags(bank, c):
     return dict(module="stft", bank=type(bank).__name__, real=bool(bank.is_real),
-                include_energy=bool(c["energy"]), precision=prec)
+                include_energy=bool(c["energy"]))
 
 
 def _stft_build(c, prec):
@@ -139,46 +138,69 @@ def _stft_functional(mod, xt, c):
         mod.kaldi_shift, mod.is_real)
 
 
+def _has_empty_filter(comp):
+    """a filter of the bank has no DFT bin at this DFT size (degenerate configuration: the NumPy
+    coefficient is constantly the floor); the torch constructor documents that it refuses it"""
+    D = getattr(comp, "_dft_size", None)
+    if D is None:
+        return any(len(t) == 0 for t in getattr(comp, "_truncated_filts", []))
+    return any(len(comp.bank.get_truncated_response(i, D)[1]) == 0
+               for i in range(comp.bank.num_filts))
+
+
 def _stft_compare(comp, built, c, N, prec, seed, variant, functional=False):
-    """one (configuration, length) case -> (violations, kind of observation)"""
+    """one (configuration, length) case -> (violations, kind of observation).
+    functional=True: the functional form with dft_size=None is compared with the *module*
+    (padded configurations only), so that a defect of the shared code is reported once."""
     torch = _torch()
     bank = comp.bank
     L = c["L"]
-    tags = _stft_tags(bank, c, prec)
+    tags = _stft_tags(bank, c)
     case = dict(config=c, N=N, precision=prec, signal=variant, functional=bool(functional))
     if L // 2 + 1 <= N < L:
         raise core.HarnessError("length %d is outside the property's domain for L=%d" % (N, L))
     if built[0] != "ok":
-        return [core.violation(dict(tags, what="exception", stage="construct", exc=built[1]),
+        if built[1] == "ValueError" and "is empty" in built[2] and _has_empty_filter(comp):
+            return [], "skipped_empty_filter"
+        return [core.violation(dict(tags, what="exception", stage="construct", exc=built[1],
+                                    precision=prec),
                                "from_stft_frame_computer raised %s: %s" % (built[1], built[2]),
                                case)], "exc"
     mod = built[1]
     x = _signal(seed, N, prec, variant)
-    rn = computers.call(comp.compute_full, sig.ro(x))
-    if rn[0] != "ok":
-        return [], "numpy_exc"  # the NumPy side failing is C01/C02's business
-    want = np.asarray(rn[1])
     xt = torch.tensor(x)
     if functional:
+        rn = _call_nograd(mod, xt)
+        if rn[0] != "ok":
+            return [], "module_exc"  # reported by the module comparison
+        want = _to_np(rn[1])
         rt = _call_nograd(_stft_functional, mod, xt, c)
+        names = ("functional form (dft_size=None)", "module")
     else:
+        rn = computers.call(comp.compute_full, sig.ro(x))
+        if rn[0] != "ok":
+            return [], "numpy_exc"  # the NumPy side failing is C01/C02's business
+        want = np.asarray(rn[1])
         rt = _call_nograd(mod, xt)
-    what_fn = "functional form (dft_size=None)" if functional else "module"
+        names = ("module", "NumPy compute_full")
     if rt[0] != "ok":
         return [core.violation(
-            dict(tags, what="exception", stage="functional" if functional else "forward", exc=rt[1]),
-            "N=%d L=%d S=%d: torch %s raised %s: %s; NumPy returned shape %r" % (
-                N, L, c["S"], what_fn, rt[1], rt[2], want.shape), case)], "exc"
+            dict(tags, what="exception", stage="functional" if functional else "forward",
+                 exc=rt[1], precision=prec),
+            "N=%d L=%d S=%d: torch %s raised %s: %s; %s returned shape %r" % (
+                N, L, c["S"], names[0], rt[1], rt[2], names[1], tuple(want.shape)), case)], "exc"
     got = _to_np(rt[1])
     if tuple(got.shape) != tuple(want.shape):
-        if got.ndim == 2 and got.shape[0] == 0 and want.shape[0] == 0:
+        if functional:
+            what = "functional_differs"
+        elif got.ndim == 2 and got.shape[0] == 0 and want.shape[0] == 0:
             what = "empty_columns"
         else:
             what = "shape"
         return [core.violation(
-            dict(tags, what=what, functional=bool(functional)),
-            "N=%d L=%d S=%d: torch %s shape %r, NumPy compute_full shape %r" % (
-                N, L, c["S"], what_fn, tuple(got.shape), tuple(want.shape)), case)], "shape"
+            dict(tags, what=what),
+            "N=%d L=%d S=%d: torch %s shape %r, %s shape %r" % (
+                N, L, c["S"], names[0], tuple(got.shape), names[1], tuple(want.shape)), case)], "shape"
     if want.shape[0] == 0:
         return [], "empty"
     ok = _close(got, want, prec, c["log"])
@@ -187,14 +209,17 @@ def _stft_compare(comp, built, c, N, prec, seed, variant, functional=False):
         first = tuple(int(i) for i in bad[0])
         cols = set(int(b[1]) for b in bad)
         only_energy = bool(c["energy"] and cols == {0})
+        vt = dict(tags, what="functional_differs") if functional else \
+            dict(tags, what="values", energy_column=only_energy, precision=prec)
         return [core.violation(
-            dict(tags, what="values", energy_column=only_energy, functional=bool(functional)),
+            vt,
             "N=%d L=%d S=%d D=%s style=%s kaldi=%s log=%s power=%s: %d of %d entries differ, "
-            "max|diff|=%.3g, first at frame/coeff %s (torch %r, NumPy %r)" % (
+            "max|diff|=%.3g, first at frame/coeff %s (torch %s %r, %s %r)" % (
                 N, L, c["S"], getattr(comp, "_dft_size", "?"), c["style"], c["kaldi"], c["log"],
                 c["power"], len(bad), ok.size,
                 float(np.nanmax(np.abs(got.astype(np.float64) - want.astype(np.float64)))),
-                list(first), float(got[first]), float(want[first])), case)], "values"
+                list(first), names[0], float(got[first]), names[1], float(want[first])),
+            case)], "values"
     return [], "frames"
 
 
@@ -206,7 +231,7 @@ def _stft_lengths(L, S):
 def _stft_eval(pt, seed):
     bankname, L, S, pad, (style, kaldi), window, prec = pt
     viol = []
-    evals = nontriv = 0
+    evals = nontriv = skipped = 0
     obs = set()
     for use_log, use_power, energy in FLAGS:
         c = dict(kind="stft", bank=bankname, L=L, S=S, style=style, kaldi=kaldi, window=window,
@@ -220,20 +245,24 @@ def _stft_eval(pt, seed):
                                skipped=True)
         for N in _stft_lengths(L, S):
             for variant in ("generic", "zeros") if N == L else ("generic",):
-                evals += 1
                 v, kind = _stft_compare(comp, built, c, N, prec, seed, variant)
                 viol.extend(v)
                 obs.add((kind, use_log, use_power, energy))
+                if kind.startswith("skipped") or kind == "numpy_exc":
+                    skipped += 1
+                    continue
+                evals += 1
                 if kind in ("frames", "values"):
                     nontriv += 1
-        if pad:
+        if pad and built[0] == "ok":
             evals += 1
             v, kind = _stft_compare(comp, built, c, 2 * L + 1, prec, seed, "generic", functional=True)
             viol.extend(v)
             obs.add(("functional:" + kind, use_log, use_power, energy))
         if len(viol) > MAX_VIOL_PER_POINT:
             break
-    return core.result(viol, evals=evals, nontrivial_count=nontriv, obs=sorted(map(str, obs)),
+    return core.result(viol, evals=evals, nontrivial_count=nontriv, skipped=skipped,
+                       obs=[bankname, prec] + sorted(map(str, obs)),
                        sample=dict(bank=bankname, L=L, S=S, pad=pad, style=style, kaldi=kaldi,
                                    window=window, precision=prec, lengths=_stft_lengths(L, S),
                                    inner="8 flag combinations x lengths (+zero signal at N=L)"))
@@ -356,8 +385,8 @@ def _ts_eval(pt, seed):
                 if want.size:
                     nontriv += 1
                 obs.add((mode, want.shape[0] > 0))
-    return core.result(viol, evals=evals, nontrivial_count=nontriv, obs=sorted(map(str, obs)),
-                       sample=pt)
+    return core.result(viol, evals=evals, nontrivial_count=nontriv,
+                       obs=[module, prec] + sorted(map(str, obs)), sample=pt)
 
 
 def _ts_replay(case, seed):
@@ -464,8 +493,8 @@ def _pre_eval(pt, seed):
                 if N > 1:
                     nontriv += 1
                 obs.add((form, min(N, 2)))
-    return core.result(viol, evals=evals, nontrivial_count=nontriv, obs=sorted(map(str, obs)),
-                       sample=pt)
+    return core.result(viol, evals=evals, nontrivial_count=nontriv,
+                       obs=[prec, float(np.sign(coeff))] + sorted(map(str, obs)), sample=pt)
 
 
 # ------------------------------------------------------------------ post-processor wrapper
@@ -518,6 +547,9 @@ def _post_eval(pt, seed):
     obs = set()
     tags = dict(module="post", post=pc["name"], precision=prec)
     rt, at = (1e-12, 1e-13) if prec == "float64" else (2e-6, 1e-6)
+    import warnings
+
+    warnings.filterwarnings("ignore", category=UserWarning, module="pydrobert")
     for shape in pt.get("shapes", POST_SHAPES):
         shape = tuple(shape)
         evals += 1
@@ -574,8 +606,8 @@ def _post_eval(pt, seed):
         if want.size:
             nontriv += 1
         obs.add((tuple(want.shape) != shape, bool(want.size)))
-    return core.result(viol, evals=evals, nontrivial_count=nontriv, obs=sorted(map(str, obs)),
-                       sample=pt)
+    return core.result(viol, evals=evals, nontrivial_count=nontriv,
+                       obs=[pc["name"], prec] + sorted(map(str, obs)), sample=pt)
 
 
 # ------------------------------------------------------------------ short-integration wrapper
@@ -664,7 +696,8 @@ def _si_eval(pt, seed):
                 nontriv += 1
         if len(viol) > MAX_VIOL_PER_POINT:
             break
-    return core.result(viol, evals=evals, nontrivial_count=nontriv, obs=sorted(map(str, obs)),
+    return core.result(viol, evals=evals, nontrivial_count=nontriv,
+                       obs=[bankname, style, prec] + sorted(map(str, obs)),
                        sample=dict(bank=bankname, S=S, style=style, pad=pad, precision=prec))
 
 
